@@ -16,6 +16,7 @@ def run(c):
     c.tlc_mc("CopyLoop", "MCCopyLoop0.cfg")
     c.tlc_mc("CopyLoop", "MCCopyLoop_canary.cfg", expect=["Bound", "StalledWithin", "OkComplete"])
     if not c.quick:
+        c.tlc_mc("CopyLoop", "MCCopyLoop2.cfg", timeout=1500)
         c.tlc_mc("CopyLoop", "MCCopyLoop3.cfg", timeout=1500)
     drv = c.build("drv-copy")
     traces = []
